@@ -8757,6 +8757,9 @@ func (c *BytecodeCompiler) patchJumpWithTarget(target int, offset int, location 
 func (c *BytecodeCompiler) patchJump(offset int, location *position.Location) {
 	target := c.nextInstructionOffset() - offset - 2
 	c.patchJumpWithTarget(target, offset, location)
+	// a jump lands on the next instruction: whatever was emitted last (eg. a RETURN
+	// in the branch that has just been skipped) says nothing about the code that follows
+	c.lastOpCode = bytecode.NOOP
 }
 
 // Emit an instruction that sets a local variable or value
